@@ -3,7 +3,7 @@
    /repo on every run by srcfacts/golite.go) under the interpreter of Base/GoLite.v.  [fn t] is the
    translated function, or a function that panics at once when the translator refused it. *)
 From Coq Require Import String.
-From Radius Require Import Base.Bytes Base.Res Base.Guard Base.GoLite Gen.Src Crypto.MD5 Model.SrcRun Proofs.SrcBase Proofs.SrcCtx Model.Attrs Spec.C09 Spec.C01 Proofs.SrcAttrs Proofs.SrcParse Proofs.SrcMarshal.
+From Radius Require Import Base.Bytes Base.Res Base.Guard Base.GoLite Gen.Src Crypto.MD5 Model.SrcRun Proofs.SrcBase Proofs.SrcCtx Model.Attrs Spec.C09 Spec.C01 Proofs.SrcDefs Proofs.SrcParse Proofs.SrcMarshal.
 Open Scope list_scope.
 Open Scope nat_scope.
 
@@ -58,3 +58,16 @@ Theorem C01_program_MarshalBinary : forall fuel c i auth secret vl,
   src_run "Packet.MarshalBinary" fuel [vpacket c i auth secret vl] = Some (Some (marshal_result c i auth vl)).
 Proof. exact program_MarshalBinary. Qed.
 Print Assumptions C01_program_MarshalBinary.
+
+(* non-vacuity: a concrete datagram meets the hypotheses and the translated Parse returns its packet;
+   a concrete packet is marshalled by the translated MarshalBinary *)
+Definition ex_dgram : bytes := [1; 7; 0; 29]%N ++ repeat 9%N 16 ++ [1; 5; 97; 98; 99; 4; 2; 6; 2]%N.
+Example C01_src_example :
+  bytes_ok ex_dgram /\ length ex_dgram < 100 /\
+  src_run "Parse" 100 [VBytes ex_dgram; VBytes [115]%N] =
+    Some (Some (VTup [VRec [VInt 1; VInt 7; VBytes (repeat 9%N 16); VBytes [115]%N;
+                            VList [vavp 1 (VBytes [97; 98; 99]%N); vavp 4 VNil; vavp 6 VNil]]; VNil])) /\
+  src_run "Packet.MarshalBinary" 100 [vpacket 1 7 (repeat 9%N 16) (VBytes [115]%N)
+                                        [vavp 1 (VBytes [97; 98; 99]%N); vavp 4 VNil; vavp 300 (VBytes [1]%N); vavp 6 VNil]] =
+    Some (Some (VTup [VBytes ex_dgram; VNil])).
+Proof. split; [apply bytes_okb_spec; reflexivity|]. split; [vm_compute; lia|]. split; vm_compute; reflexivity. Qed.
